@@ -402,6 +402,7 @@ def _reschedule(ctx, master):
     graph, ops = M.record_ops(ctx, func)
     facts = N.must_facts(graph, nz)
     domains = {}
+    seen_loops = set()
     for node, op, rec, _call in ops:
         loop = K.enclosing_for(graph, node)
         names = N.for_targets(loop) if loop is not None else set()
@@ -429,6 +430,12 @@ def _reschedule(ctx, master):
                    construct='put path server = after')
         if loop is not None:
             domains.setdefault(N.txt(loop.ast.iter), []).append(op)
+            if id(loop) not in seen_loops:
+                seen_loops.add(id(loop))
+                # every changed placement is published: a tuple that needs
+                # no delete (or no create) does not end the pass
+                K.exhaustive_loop(ctx, 'C09.3', func, loop,
+                                  'publication pass (%s)' % op)
     for dom, opsof in sorted(domains.items()):
         _changed_list(ctx, func, dom, 'C09.3',
                       '%s loop domain' % '/'.join(sorted(set(opsof))))
